@@ -67,6 +67,8 @@ def run(F, ctx):
             sa = c.static_args or ""
             if _KEYED.match(sa):
                 n_keyed += 1
+                if idl is None:
+                    raise CheckError("%s: keyed session lookup but no parameter named id / session_id (renamed? update the rule's anchor)" % root)
                 ok = n == root and idl is not None and op_local(c.args[1]) in f.derive({idl}, through_calls=True)
                 ctx.site("%s: keyed %s" % (short, sa.split("::")[-1][:20]), c.where(), ok=ok)
                 if not ok:
@@ -99,7 +101,7 @@ def run(F, ctx):
         if not n.startswith(SNAPSHOT + "::execute_with_session_facts") or "{closure" in n:
             continue
         f = F.fn(n)
-        sf = f.local_named("session_facts")
+        sf = f.need_local("session_facts")
         news = [c for c in f.normal_calls() if re.match(r"^std::sync::Arc::<std::collections::HashMap<std::string::String, std::vec::Vec<value::Tuple>>>::new$", c.static_args or "")]
         fresh = [c for c in f.normal_calls() if re.match(r"^std::collections::HashMap::<std::string::String, std::vec::Vec<value::Tuple>>::(new|with_capacity)$", c.static_args or "")]
         shared = [c for c in f.normal_calls() if (c.resolved or "").endswith("IQLEngine::set_shared_input")]
